@@ -206,7 +206,7 @@ func checkC09(c *h.Check) {
 		}
 	}
 	// struct providers selecting two fields of identical type
-	for variant := 0; variant < 5; variant++ {
+	for variant := 0; variant < 7; variant++ {
 		for legacy := 0; legacy < 2; legacy++ {
 			b := ir.NewBuilder()
 			p := b.Root
@@ -227,13 +227,19 @@ func checkC09(c *h.Check) {
 			case 3: // only one of the two selected: legal
 				agg = b.Agg(p, "S", &ir.Field{Name: "A", T: t}, &ir.Field{Name: "B", T: t}, &ir.Field{Name: "C", T: u})
 				names = []string{"B", "C"}
+			case 5: // the second of two same-typed fields is tagged wire:"-": legal for wire.Struct("*"), but the legacy literal form selects every field
+				agg = b.Agg(p, "S", &ir.Field{Name: "A", T: t}, &ir.Field{Name: "B", T: t, Tag: `wire:"-"`})
+				names = []string{"*"}
+			case 6: // the first one tagged
+				agg = b.Agg(p, "S", &ir.Field{Name: "A", T: t, Tag: `wire:"-"`}, &ir.Field{Name: "B", T: t})
+				names = []string{"*"}
 			case 4: // identical via alias, not adjacent
 				agg = b.Agg(p, "S", &ir.Field{Name: "A", T: t}, &ir.Field{Name: "C", T: u}, &ir.Field{Name: "B", T: b.Alias(p, "TAlias", t)})
 				names = []string{"C", "A", "B"}
 			}
 			it := ir.StructItem(agg, names...)
 			if legacy == 1 {
-				if variant >= 2 {
+				if variant >= 2 && variant < 5 {
 					continue
 				}
 				it = &ir.Item{Kind: ir.IStructLit, T: agg}
@@ -245,7 +251,7 @@ func checkC09(c *h.Check) {
 	// needs x has: provider shape (4) x injector shape (4) x where the needing provider sits (4)
 	for ps := 0; ps < 4; ps++ {
 		for is := 0; is < 4; is++ {
-			for where := 0; where < 5; where++ {
+			for where := 0; where < 7; where++ {
 				b := ir.NewBuilder()
 				p := b.Root
 				np := p
@@ -267,6 +273,17 @@ func checkC09(c *h.Check) {
 					inj.Items = []*ir.Item{pr, ir.SetRef(&ir.Set{Pkg: p, Name: "Inner", Items: []*ir.Item{needy}})}
 				case 3: // in another package's set
 					inj.Items = []*ir.Item{pr, ir.SetRef(&ir.Set{Pkg: np, Name: "LibSet", Items: []*ir.Item{needy}})}
+				case 5, 6: // the needing provider is variadic (5: it provides the result, 6: a dependency)
+					w := b.Leaf(p, "W")
+					ws := ir.FuncItem(&ir.Func{Pkg: p, Name: "PWs", Out: ir.Slice(w)})
+					needy.Fn.Params = []*ir.Type{ir.Slice(w)}
+					needy.Fn.Variadic = true
+					if where == 5 {
+						inj.Out = d
+						inj.Items = []*ir.Item{needy, ws}
+					} else {
+						inj.Items = []*ir.Item{pr, needy, ws}
+					}
 				case 4: // present in a nested set but not needed: the injector need not declare anything
 					inj.Items = []*ir.Item{ir.FuncItem(&ir.Func{Pkg: p, Name: "PR0", Out: r}), ir.SetRef(&ir.Set{Pkg: p, Name: "Inner", Items: []*ir.Item{needy, ir.FuncItem(&ir.Func{Pkg: p, Name: "PR0", Out: r})}})}
 					inj.Items = inj.Items[1:]
